@@ -251,6 +251,16 @@ func init() {
 					model.Print{E: model.Binary{Op: "/", L: model.Lit{V: model.Int(1)}, R: model.Var{Name: "zero"}}},
 					model.Print{E: model.Call{X: model.Var{Name: "di"}, Name: "nofn"}},
 				}[c.Rng.Intn(3)]
+				// what resembles a fault and is none: a division of floats by zero has a value, and the page goes on
+				if i%4 == 1 {
+					near := []model.Stmt{
+						model.Print{E: model.Binary{Op: "/", L: model.Lit{V: model.Float(1.5)}, R: model.Var{Name: "fzero"}}},
+						model.Print{E: model.Binary{Op: "/", L: model.Lit{V: model.Float(-2.0)}, R: model.Lit{V: model.Float(0.0)}}},
+						model.Print{E: model.Binary{Op: "/", L: model.Var{Name: "fzero"}, R: model.Binary{Op: "-", L: model.Var{Name: "fzero"}, R: model.Var{Name: "fzero"}}}},
+						model.If{Conds: []model.Expr{model.Binary{Op: ">", L: model.Binary{Op: "/", L: model.Lit{V: model.Float(3.0)}, R: model.Var{Name: "fzero"}}, R: model.Lit{V: model.Float(1.0)}}}, Bodies: [][]model.Stmt{{model.Text{S: "unbounded"}}}},
+					}[c.Rng.Intn(4)]
+					prog = placeStmt(c.Rng, prog, near, 3)
+				}
 				if i%5 != 0 {
 					prog = placeStmt(c.Rng, prog, fault, 3)
 				}
@@ -259,6 +269,7 @@ func init() {
 					data[k] = v
 				}
 				data["zero"] = model.Int(0)
+				data["fzero"] = model.Float(0)
 				exp := expectRun(prog, data)
 				if exp.Unspecified {
 					return
